@@ -25,6 +25,7 @@ import (
 	"github.com/rpcpool/yellowstone-faithful/blocktimeindex"
 	"github.com/rpcpool/yellowstone-faithful/bucketteer"
 	"github.com/rpcpool/yellowstone-faithful/carreader"
+	"github.com/rpcpool/yellowstone-faithful/compactindexsized"
 	deprecatedbucketter "github.com/rpcpool/yellowstone-faithful/deprecated/bucketteer"
 	"github.com/rpcpool/yellowstone-faithful/gsfa"
 	hugecache "github.com/rpcpool/yellowstone-faithful/huge-cache"
@@ -888,6 +889,11 @@ func (ser *Epoch) GetBlock(ctx context.Context, slot uint64) (*ipldbindcode.Bloc
 	if err != nil {
 		return nil, cid.Cid{}, fmt.Errorf("failed to decode block with CID %s: %w", wantedCid, err)
 	}
+	if uint64(decoded.Slot) != slot {
+		// The slot-to-cid index only stores a truncated hash of the key, so a slot
+		// without a block can collide with an archived one.
+		return nil, cid.Cid{}, fmt.Errorf("index entry for slot %d points to the block of slot %d: %w", slot, decoded.Slot, compactindexsized.ErrNotFound)
+	}
 	return decoded, wantedCid, nil
 }
 
@@ -965,6 +971,13 @@ func (ser *Epoch) GetTransaction(ctx context.Context, sig solana.Signature) (*ip
 	decoded, err := iplddecoders.DecodeTransaction(data)
 	if err != nil {
 		return nil, cid.Cid{}, fmt.Errorf("failed to decode transaction with CID %s: %w", wantedCid, err)
+	}
+	if gotSig, err := decoded.Signature(); err != nil {
+		return nil, cid.Cid{}, fmt.Errorf("failed to read signature of transaction with CID %s: %w", wantedCid, err)
+	} else if gotSig != sig {
+		// The sig-to-cid index only stores a truncated hash of the key, so a signature
+		// that is not archived can collide with an archived one.
+		return nil, cid.Cid{}, fmt.Errorf("index entry for signature %s points to transaction %s: %w", sig, gotSig, compactindexsized.ErrNotFound)
 	}
 	return decoded, wantedCid, nil
 }
